@@ -118,8 +118,8 @@ CHECKS["C09"] = {
             "close 1/2, plain call from the driver} (symbolic op list, sharded on its first three operations) is executed on the "
             "real code; after each step the installed handler collection must be exactly the handlers of the open overlays and the "
             "`gen > a_fn > a` overlay must have fired only for calls made by generator bodies; every distinct discrepancy on a path "
-            "is reported, classified by what is wrong. A second harness runs the driver inside an instrumented function and checks "
-            "its enclosing-function selector keeps matching.",
+            "is reported, classified by what is wrong. Variants: functions permanently @tooled (generators that start while no "
+            "overlay is open), and the driver inside an instrumented function (its enclosing-function selector must keep matching).",
     "design_ref": "DESIGN.md section 4, C09",
     "note": "Garbage-collection 'drop' is not driven (explicit close only). Generators created while uninstrumented, or started "
             "before the overlay was entered, are not asserted either way for the generator-ancestor selector (not stated).",
@@ -142,8 +142,10 @@ CHECKS["C14"] = {
     "category": "model_checking",
     "text": "For five placements of a function in a generated on-disk module (module level, method, nested-class method, closure, "
             "decorated) every history of <= 5 (thorough 7) operations over {activate a probe by name, activate one by reference "
-            "string, deactivate either, call, resolve the reference} is executed on the real code: each resolution must return that "
-            "very function object and the by-reference probe must receive exactly what the by-name probe receives.",
+            "string (focused on another variable, i.e. another capture set), deactivate either, probe the enclosing function, call, "
+            "resolve the reference} is executed on the real code, every path starting from never-instrumented functions and empty memo "
+            "tables: each resolution must return that very function object, both probes must receive exactly their bindings, and after "
+            "the history every reference of the module must still resolve.",
     "design_ref": "DESIGN.md section 4, C14",
     "note": "codefind lookups and probe activation run natively (concrete data); the op list and call values are symbolic.",
     "technique": "bounded symbolic execution (CrossHair + z3) of probe/resolve histories over a generated module",
@@ -155,7 +157,8 @@ CHECKS["C13"] = {
             "receiver parameter called `this`) probed through the class, through one object chosen by a symbolic index, through a "
             "functools.wraps decorator, a property and a dotted attribute path; a symbolic sequence of calls with a symbolic argument "
             "runs on the real code; events (value, receiver identity) must be exactly those of calls whose receiver is the probed "
-            "object / any instance; the homonymous module-level function keeps its code. Path trees exhausted.",
+            "object / any instance; the homonymous module-level function keeps its code. Also: the method as a non-root step of a call "
+            "path (plain and recursive), and two successive probes through different objects. Path trees exhausted.",
     "design_ref": "DESIGN.md section 4, C13",
     "note": "Configuration dimension (population, selector spellings) enumerated; probed object, call sequence and argument symbolic.",
     "technique": "bounded symbolic execution (CrossHair + z3) over a receiver population with symbolic probed object and call sequence",
@@ -218,7 +221,8 @@ CHECKS["C08"] = {
     "text": "The current source of the 16 shared-state functions (_tooler, _untooler, SyncedStackedTransforms/StackedTransforms/"
             "TransformSet methods, BaseOverlay.__enter__/__exit__) is rewritten into coroutines with a scheduling point before every "
             "statement and between load and store of augmented attribute/subscript assignments; two (thorough: also three) virtual "
-            "threads, each in its own contextvars.Context, run tool/enter/call/exit/untool rounds on one function; the preemption "
+            "threads, each in its own contextvars.Context, run tool/enter/call/exit/untool rounds on one function (the call has a "
+            "scheduling point between binding the code object and executing the body); the preemption "
             "positions are a symbolic vector, every schedule with <= 2 preemptions is explored and the path tree exhausted; each "
             "thread must get exactly its own events and return value and the function must end on its original code with zero "
             "counters. A failing schedule is re-enforced on real threading.Thread objects (sys.monitoring instruction gating) and "
